@@ -16,6 +16,7 @@ var trickyTemplates = [][2]string{
 
 func TestC11(t *testing.T) {
 	runProp(t, "C11", func(e *env) {
+		e.coldStage(2, 32)
 		s := &c11State{r: e.r, prim: primedBuffer()}
 		// strings made of structural characters, quotes and backslashes inside containers
 		sl := gen.Shortlex{Alphabet: []byte("[]{}QB,:a "), MaxLen: e.cfg.Pick(4, 6)}
@@ -46,7 +47,7 @@ func TestC11(t *testing.T) {
 				return true
 			})
 		}
-		e.feed(feedOpts{shortlexQ: 4, shortlexT: 6, sweepQ: 2500, sweepT: 60000, nestQ: 150, nestT: 4000, indentQ: 40, indentT: 1500, numShapes: 4, strRuns: true,
+		e.feed(feedOpts{shortlexQ: 4, shortlexT: 6, sweepQ: 2500, sweepT: 60000, nestQ: 150, nestT: 4000, indentQ: 40, indentT: 1500, numShapes: 4, strRuns: true, amplify: true,
 			mutQ: 200000, mutT: 4000000, nextByte: true, alignment: true, boundaries: true}, s.input)
 	})
 }
